@@ -90,6 +90,9 @@ func genActions(r *Rng, n int, panicPct int) []Action {
 	out := []Action{}
 	for i := 0; i < n; i++ {
 		switch p := r.Intn(100); {
+		case p < 3:
+			// user code drops a header (net/http's own 304 path drops Content-Encoding from under the compressor)
+			out = append(out, Action{6, r.Pick([]string{"X-A", "Content-Encoding", "Content-Encoding", "X-B"}), ""})
 		case p < 25:
 			out = append(out, Action{0, r.Pick([]string{"X-A", "X-B", "X-A"}), r.Pick([]string{"1", "2", "x"})})
 		case p < 35:
@@ -121,7 +124,7 @@ func genFScripts(r *Rng, prefix string, max int, panicPct int) []FScript {
 			keep := func(l []Action) []Action {
 				out := []Action{}
 				for _, a := range l {
-					if a.Kind <= 2 || a.Kind == 5 {
+					if a.Kind <= 2 || a.Kind >= 5 {
 						out = append(out, a)
 					}
 				}
@@ -183,10 +186,13 @@ func genDisp(r *Rng) Sx {
 	if r.Pct(25) {
 		recoverScript = []Action{}
 		for _, a := range genActions(r, 1+r.Intn(4), 0) {
-			if a.Kind <= 2 { // the recover handler only has the writer
+			if a.Kind <= 2 || a.Kind == 6 { // the recover handler only has the writer
 				recoverScript = append(recoverScript, a)
 			}
 		}
+	} else if r.Pct(25) {
+		// no RecoverHandler call: go-restful's own handler, which answers 500 with a report (reason and stack)
+		recoverScript = []Action{{1, "500", ""}, {2, defaultReport, ""}}
 	}
 	condPanic := Ls{}
 	if r.Pct(20) {
@@ -204,7 +210,7 @@ func genDisp(r *Rng) Sx {
 			pth := "/plain-" + itoa(k)
 			acts := []Action{}
 			for _, a := range genActions(r, 1+r.Intn(3), panicPct) {
-				if a.Kind <= 2 || a.Kind == 5 {
+				if a.Kind <= 2 || a.Kind >= 5 {
 					acts = append(acts, a)
 				}
 			}
@@ -213,6 +219,21 @@ func genDisp(r *Rng) Sx {
 			plain = append(plain, L(A(pth), []int{0, 1, 1, 2}[r.Intn(4)], actionsSx(acts)))
 			plainPaths = append(plainPaths, pth)
 		}
+	}
+	nested := false
+	for _, ph := range plain {
+		if sxInt(sxNth(ph, 1)) == 2 {
+			nested = true
+		}
+	}
+	if nested {
+		// a nested container decides by the label whether the response is encoded already: dropping it there makes the
+		// user's set-up encode twice, which is not the framework's doing
+		keepLabel := func(x Sx) Sx { return sxReplaceStr(x, "Content-Encoding", "X-A") }
+		cf2 := fscriptsFromSx(keepLabel(fscriptsSx(cf)))
+		cf = cf2
+		sf, rf, hs, plain = keepLabel(sf).(Ls), keepLabel(rf).(Ls), keepLabel(hs).(Ls), keepLabel(plain).(Ls)
+		recoverScript = actionsFromSx(keepLabel(actionsSx(recoverScript)))
 	}
 	cfg := L(t.Sx(), fscriptsSx(cf), sf, rf, hs, B(r.Pct(55)), B(r.Pct(60)), actionsSx(recoverScript), r.Intn(2), []int{0, 1, 2, 8}[r.Intn(4)], condPanic,
 		plain, B(r.Pct(30)))
@@ -232,6 +253,12 @@ func genDisp(r *Rng) Sx {
 		}
 		if len(condPanic) > 0 && r.Pct(50) {
 			q.Set("X-Cond-Panic", "1")
+		}
+		if r.Pct(6) {
+			q.Set("X-Verif-Cancelled", "1") // the request arrives with a context that is already done
+		}
+		if q.Get("Accept-Encoding") == "" && r.Pct(8) {
+			q.Set("X-Verif-Gone", "1") // the client is gone: every Write to the underlying writer reports an error
 		}
 		preset := ""
 		if r.Pct(8) {
@@ -349,6 +376,8 @@ func runActions(l []Action, rq *restful.Request, rp *restful.Response, lg *reqLo
 			lg.add("see:" + a.A + "=" + v)
 		case 5:
 			panicWith(a.A)
+		case 6:
+			rp.Header().Del(a.A)
 		}
 	}
 }
@@ -378,6 +407,8 @@ func runHTTPActions(l []Action, w http.ResponseWriter) {
 			w.Write([]byte(a.A))
 		case 5:
 			panicWith(a.A)
+		case 6:
+			w.Header().Del(a.A)
 		}
 	}
 }
@@ -439,9 +470,13 @@ func buildDisp(cfg Sx, env *dispEnv) *restful.Container {
 	for _, x := range sxList(sxNth(cfg, 10)) {
 		condPanic[sxInt(x)] = true
 	}
-	c.EnableContentEncoding(sxBool(sxNth(cfg, 5)))
+	// set-up order: half of the configurations first set the switch the other way and flip it after everything
+	// is registered; the value at serving time is what counts
+	flipLate := len(t.Services)%2 == 0
+	c.EnableContentEncoding(sxBool(sxNth(cfg, 5)) != flipLate)
 	c.DoNotRecover(!sxBool(sxNth(cfg, 6)))
 	rscript := actionsFromSx(sxNth(cfg, 7))
+	if !isDefaultReport(rscript) {
 	c.RecoverHandler(func(reason interface{}, w http.ResponseWriter) {
 		// the request is not passed to the handler: the log is found through a header the harness sets on the writer
 		id, _ := strconv.Atoi(w.Header().Get("X-Verif-Rid"))
@@ -456,6 +491,7 @@ func buildDisp(cfg Sx, env *dispEnv) *restful.Container {
 		rp := restful.NewResponse(w)
 		runActions(rscript, restful.NewRequest(&http.Request{Header: http.Header{}}), rp, lg)
 	})
+	}
 	for _, ph := range sxList(sxNth(cfg, 11)) {
 		acts := actionsFromSx(sxNth(ph, 2))
 		var h http.Handler = http.HandlerFunc(func(w http.ResponseWriter, r *http.Request) { runHTTPActions(acts, w) })
@@ -538,8 +574,29 @@ func buildDisp(cfg Sx, env *dispEnv) *restful.Container {
 			c.Add(ws)
 		}()
 	}
+	c.EnableContentEncoding(sxBool(sxNth(cfg, 5)))
 	return c
 }
+
+// the body go-restful's own recover handler writes stands in the scripts as this marker; the real report (reason,
+// then one line per stack frame) is recognised in the response and replaced by it
+const defaultReport = "<default-recover-report>"
+
+var reportRe = regexp.MustCompile(`recover from panic situation: - ([^\r\n]*)\r\n(?:    [^\r\n]*:[0-9]+\r\n)*`)
+
+func isDefaultReport(l []Action) bool {
+	return len(l) == 2 && l[1].Kind == 2 && l[1].A == defaultReport
+}
+
+// the client is gone: what is written is recorded all the same, every Write reports an error
+type goneWriter struct{ *httptest.ResponseRecorder }
+
+func (g goneWriter) Write(p []byte) (int, error) {
+	g.ResponseRecorder.Write(p)
+	return 0, errGone
+}
+
+var errGone = fmt.Errorf("write: broken pipe")
 
 func sortStrings(l []string) {
 	for i := 1; i < len(l); i++ {
@@ -563,6 +620,15 @@ func serveOne(c *restful.Container, env *dispEnv, i int, h Sx) Sx {
 	if preset != "" {
 		rec.Header().Set("Content-Encoding", preset)
 	}
+	if hr.Header.Get("X-Verif-Cancelled") == "1" {
+		ctx, cancel := context.WithCancel(hr.Context())
+		cancel()
+		hr = hr.WithContext(ctx)
+	}
+	var w http.ResponseWriter = rec
+	if hr.Header.Get("X-Verif-Gone") == "1" {
+		w = goneWriter{rec}
+	}
 	panicMsg := Ls{}
 	func() {
 		defer func() {
@@ -571,9 +637,9 @@ func serveOne(c *restful.Container, env *dispEnv, i int, h Sx) Sx {
 			}
 		}()
 		if entry == 0 {
-			c.Dispatch(rec, hr)
+			c.Dispatch(w, hr)
 		} else {
-			c.ServeHTTP(rec, hr)
+			c.ServeHTTP(w, hr)
 		}
 	}()
 	ce := rec.Header().Get("Content-Encoding")
@@ -597,21 +663,44 @@ func serveOne(c *restful.Container, env *dispEnv, i int, h Sx) Sx {
 			}
 		default:
 			dec = body
+			// a script may have dropped the label from under an installed compressor: the payloads of the scripts
+			// never start with a gzip or zlib header, so a body that does and decodes completely is decoded
+			if ce == "" && len(body) >= 2 && body[0] == 0x1f && body[1] == 0x8b {
+				if zr, e := gzip.NewReader(bytes.NewReader(body)); e == nil {
+					if d, e := ioutil.ReadAll(zr); e == nil {
+						dec = d
+					}
+				}
+			} else if ce == "" && len(body) >= 2 && body[0] == 0x78 {
+				if zr, e := zlib.NewReader(bytes.NewReader(body)); e == nil {
+					if d, e := ioutil.ReadAll(zr); e == nil {
+						dec = d
+					}
+				}
+			}
 		}
 		if err != nil {
 			ok = 0
 		}
 		body = dec
 	}
+	// reports of go-restful's own recover handler: each one is a call of it
+	reports := reportRe.FindAllSubmatch(body, -1)
+	body = reportRe.ReplaceAll(body, []byte(defaultReport))
 	body = errMsgRe.ReplaceAll(body, nil)
 	hdr := rec.Header()
 	hdr.Del("X-Verif-Rid")
 	hdr.Del("Content-Type") // sniffed by the recorder, never set by go-restful or the scripts here
 	lg := env.logs[i]
 	lg.mu.Lock()
-	ev := Strs(lg.events)
+	events := append([]string{}, lg.events...)
 	rc := lg.recovered
 	lg.mu.Unlock()
+	for _, m := range reports {
+		events = append(events, "recover:"+string(m[1]))
+		rc++
+	}
+	ev := Strs(events)
 	return L(panicMsg, rec.Code, headerSx(hdr, func(string) bool { return true }), A(string(body)), ok, ev, rc)
 }
 
@@ -703,3 +792,25 @@ func runDisp(raw Sx) (Sx, Sx) {
 }
 
 func init() { domains["disp"] = domain{gen: genDisp, run: runDisp} }
+
+// every string atom equal to from replaced by to
+func sxReplaceStr(x Sx, from, to string) Sx {
+	if l, ok := x.(Ls); ok {
+		out := Ls{}
+		for _, e := range l {
+			out = append(out, sxReplaceStr(e, from, to))
+		}
+		return out
+	}
+	switch v := x.(type) {
+	case A:
+		if string(v) == from {
+			return A(to)
+		}
+	case string:
+		if v == from {
+			return A(to)
+		}
+	}
+	return x
+}
